@@ -175,6 +175,18 @@ macro_rules! impl_block_mode {
             fn dup(&self) -> Box<dyn BlockMode> {
                 Box::new($ad(self.0.clone()))
             }
+            fn as_any(&self) -> &dyn std::any::Any {
+                self
+            }
+            fn clone_from_obj(&mut self, src: &dyn BlockMode) -> bool {
+                match src.as_any().downcast_ref::<Self>() {
+                    Some(s) => {
+                        self.0.clone_from(&s.0);
+                        true
+                    }
+                    None => false,
+                }
+            }
             fn debug(&self) -> String {
                 format!("{:?}\n{:#?}", self.0, self.0)
             }
@@ -230,6 +242,18 @@ macro_rules! impl_block_mode {
             }
             fn dup(&self) -> Box<dyn BlockMode> {
                 Box::new($ad(self.0.clone()))
+            }
+            fn as_any(&self) -> &dyn std::any::Any {
+                self
+            }
+            fn clone_from_obj(&mut self, src: &dyn BlockMode) -> bool {
+                match src.as_any().downcast_ref::<Self>() {
+                    Some(s) => {
+                        self.0.clone_from(&s.0);
+                        true
+                    }
+                    None => false,
+                }
             }
             fn debug(&self) -> String {
                 format!("{:?}\n{:#?}", self.0, self.0)
@@ -390,6 +414,12 @@ macro_rules! impl_core {
             fn dup(&self) -> Option<Box<dyn Core>> {
                 impl_core!(@dupcore $clone $core self)
             }
+            fn as_any(&self) -> &dyn std::any::Any {
+                self
+            }
+            fn clone_from_obj(&mut self, src: &dyn Core) -> bool {
+                impl_core!(@clonefrom $clone self src)
+            }
             fn debug(&self) -> String {
                 format!("{:?}\n{:#?}", self.0, self.0)
             }
@@ -432,6 +462,12 @@ macro_rules! impl_core {
             fn dup(&self) -> Option<Box<dyn Stream>> {
                 impl_core!(@dupstream $clone $stream self)
             }
+            fn as_any(&self) -> &dyn std::any::Any {
+                self
+            }
+            fn clone_from_obj(&mut self, src: &dyn Stream) -> bool {
+                impl_core!(@clonefrom $clone self src)
+            }
             fn debug(&self) -> String {
                 format!("{:?}\n{:#?}", self.0, self.0)
             }
@@ -450,6 +486,8 @@ macro_rules! impl_core {
     (@seek no $s:ident $t:ident $p:ident) => {{ let _ = ($t, $p); None }};
     (@pos yes $s:ident $t:ident) => { Some(pos_dispatch!($s.0, $t)) };
     (@pos no $s:ident $t:ident) => {{ let _ = $t; None }};
+    (@clonefrom yes $s:ident $src:ident) => { match $src.as_any().downcast_ref::<Self>() { Some(o) => { $s.0.clone_from(&o.0); true } None => false } };
+    (@clonefrom no $s:ident $src:ident) => {{ let _ = $src; false }};
     (@dupcore yes $core:ident $s:ident) => { Some(Box::new($core($s.0.clone()))) };
     (@dupcore no $core:ident $s:ident) => { None };
     (@dupstream yes $stream:ident $s:ident) => { Some(Box::new($stream($s.0.clone()))) };
@@ -512,6 +550,18 @@ macro_rules! impl_buf {
             }
             fn dup(&self) -> Box<dyn BufCfb> {
                 Box::new($ad(self.0.clone()))
+            }
+            fn as_any(&self) -> &dyn std::any::Any {
+                self
+            }
+            fn clone_from_obj(&mut self, src: &dyn BufCfb) -> bool {
+                match src.as_any().downcast_ref::<Self>() {
+                    Some(s) => {
+                        self.0.clone_from(&s.0);
+                        true
+                    }
+                    None => false,
+                }
             }
             fn debug(&self) -> String {
                 format!("{:?}\n{:#?}", self.0, self.0)
